@@ -194,6 +194,20 @@ def c15_1(ctx: Ctx) -> RuleResult:
                         pol = it[2]
             want = "START_EVALUATION" in types
             ok = pol is not None and pol == want and len(types & {"START_EVALUATION", "FINISHED_EVALUATION"}) == 1
+            both = {"START_EVALUATION", "FINISHED_EVALUATION"} <= types
+            if both and call.args:
+                # one emit statement for an event object built in the two branches: decide per alternative of the value
+                from ..util import gated_values
+
+                alts_ = gated_values(ctx, m, call.args[0])
+                ok = len(alts_) >= 2
+                for conds, leaf in alts_:
+                    lt = {s_[1].rsplit(".", 1)[1] for s_ in ctx.X.closure(leaf) if s_[0] == "global" and s_[1].startswith("ropt.enums.EventType.")} & {"START_EVALUATION", "FINISHED_EVALUATION"}
+                    lp = None
+                    for a_, p_ in conds:
+                        if a_[0] == "cmp" and a_[1] == "is" and a_[3] == ("const", None) and (rp is None or a_[2] == rp):
+                            lp = p_
+                    ok = ok and len(lt) == 1 and lp is not None and lp == ("START_EVALUATION" in lt)
             res.add(m, call, "START_EVALUATION is emitted iff no results are passed, FINISHED_EVALUATION iff results are passed", ok,
                     "" if ok else "the evaluation signal emits the wrong event type for this branch", construct=f"{c.name if c else ''}.{m.name}: {sorted(types)}")
     res.floor = 10
